@@ -41,6 +41,12 @@ pub struct Scenario {
     pub goal_samples: Vec<V>,
     /// index into goal_samples returned by the first sample_goal call (RRT-Connect's goal root)
     pub goal_root: u8,
+    /// further start states of the problem definition after the first (the planners plan from the first)
+    pub extra_starts: Vec<V>,
+    /// the goal sampler fails (once) at its k-th call with error kind 0 / 1
+    pub goal_fail_at: Option<(usize, u8)>,
+    /// the goal sampler fails at every call from the k-th on
+    pub goal_fail_from: Option<(usize, u8)>,
     pub params: Params,
     pub tag: String,
 }
@@ -56,6 +62,9 @@ impl Scenario {
             "goal_balls": self.goal_balls.iter().map(|(c, r)| json!({"c": c.json(), "r": r})).collect::<Vec<_>>(),
             "goal_samples": self.goal_samples.iter().map(|v| v.json()).collect::<Vec<_>>(),
             "goal_root": self.goal_root,
+            "extra_starts": self.extra_starts.iter().map(|v| v.json()).collect::<Vec<_>>(),
+            "goal_sampler_fails_at": format!("{:?}", self.goal_fail_at),
+            "goal_sampler_fails_from": format!("{:?}", self.goal_fail_from),
             "params": self.params.json(),
             "tag": self.tag,
         })
@@ -162,9 +171,13 @@ impl<K: Kit> Rig<K> {
         ));
         let world = Arc::new(build_world::<K>(&sc.spec, &sc.world));
         let start = K::from_v(&sc.start);
-        let pd = Arc::new(Pd::<K> { space: space.clone(), start_states: vec![start.clone()], goal: goal.clone() });
+        let mut start_states = vec![start.clone()];
+        start_states.extend(sc.extra_starts.iter().map(K::from_v));
+        let pd = Arc::new(Pd::<K> { space: space.clone(), start_states, goal: goal.clone() });
         let mut drv = Drv::<K>::new(&sc.params);
         goal.mode.set(GoalMode::Script);
+        goal.fail_at.set(sc.goal_fail_at);
+        goal.fail_from.set(sc.goal_fail_from);
         if sc.params.bias >= 1.0 {
             space.expire_when_exhausted.set(true);
         }
